@@ -446,11 +446,12 @@ theorem ReadsLastWrite_append {vs : VS} {a b : List Op} (h : ReadsLastWrite vs (
     exact ⟨⟨h1, h3⟩, by simpa [runOps] using h4⟩
 
 /-- an invariant of the plain map that every validation reading the last accepted copy of its key preserves is
-preserved by the whole history -/
-theorem runOps_inv (P : Validate.Store → Prop)
-    (hstep : ∀ (vs : VS) (s : Validate.Store) (dx : DX), P s → view vs (rwKey dx.d) = s.get (rwKey dx.d) →
+preserved by the whole history; `Q` is a property every delivery of the history has -/
+theorem runOps_invQ (Q : Delivery → Prop) (P : Validate.Store → Prop)
+    (hstep : ∀ (vs : VS) (s : Validate.Store) (dx : DX), Q dx.d → P s → view vs (rwKey dx.d) = s.get (rwKey dx.d) →
       P (applyToks s (validateS vs dx.d).2))
-    (ops : List Op) {vs : VS} {w : Want} {s : Validate.Store} (hrel : Rel vs w s) (hd : ReadsLastWrite vs ops) (hP : P s) :
+    (ops : List Op) {vs : VS} {w : Want} {s : Validate.Store} (hrel : Rel vs w s) (hd : ReadsLastWrite vs ops)
+    (hQ : ∀ d ∈ deliveriesOf ops, Q d) (hP : P s) :
     ∃ w' s', Rel (runOps vs ops) w' s' ∧ P s' := by
   induction ops generalizing vs w s with
   | nil => exact ⟨w, s, hrel, hP⟩
@@ -461,7 +462,8 @@ theorem runOps_inv (P : Validate.Store → Prop)
     | deliver dx =>
       simp only [opOkR] at h1
       obtain ⟨w1, hr1⟩ := step_relG hrel (.deliver dx) h1.2
-      exact ih hr1 h2 (hstep vs s dx hP (view_of_readable hrel _ h1.1))
+      exact ih hr1 h2 (fun d hd => hQ d (by simp [deliveriesOf, hd]))
+        (hstep vs s dx (hQ dx.d (by simp [deliveriesOf])) hP (view_of_readable hrel _ h1.1))
     | run n =>
       have hcapless : ∃ w', Rel (step vs (.run n)) w' s := by
         simp only [step]
@@ -469,7 +471,7 @@ theorem runOps_inv (P : Validate.Store → Prop)
         | none => exact ⟨w, hrel⟩
         | some id => exact ⟨w, ⟨hrel.inv.runTask id, hrel.tracked, hrel.same⟩⟩
       obtain ⟨w1, hr1⟩ := hcapless
-      exact ih hr1 h2 hP
+      exact ih hr1 h2 (fun d hd => hQ d (by simpa [deliveriesOf] using hd)) hP
     | ack n =>
       have hcapless : ∃ w', Rel (step vs (.ack n)) w' s := by
         simp only [step]
@@ -477,6 +479,13 @@ theorem runOps_inv (P : Validate.Store → Prop)
         | none => exact ⟨w, hrel⟩
         | some id => exact ⟨w, ⟨hrel.inv.deliver dist id, hrel.tracked, hrel.same⟩⟩
       obtain ⟨w1, hr1⟩ := hcapless
-      exact ih hr1 h2 hP
+      exact ih hr1 h2 (fun d hd => hQ d (by simpa [deliveriesOf] using hd)) hP
+
+theorem runOps_inv (P : Validate.Store → Prop)
+    (hstep : ∀ (vs : VS) (s : Validate.Store) (dx : DX), P s → view vs (rwKey dx.d) = s.get (rwKey dx.d) →
+      P (applyToks s (validateS vs dx.d).2))
+    (ops : List Op) {vs : VS} {w : Want} {s : Validate.Store} (hrel : Rel vs w s) (hd : ReadsLastWrite vs ops) (hP : P s) :
+    ∃ w' s', Rel (runOps vs ops) w' s' ∧ P s' :=
+  runOps_invQ (fun _ => True) P (fun vs s dx _ => hstep vs s dx) ops hrel hd (fun _ _ => trivial) hP
 
 end SafeNet.ValidateStore
